@@ -152,7 +152,7 @@ func (k *Kernel) fileFd(fd int, write bool) (*FD, *Inode, Errno) {
 func Pread(fd int, p []byte, off int64) (int, error) {
 	k := K
 	_, f, faulted := k.enter("pread")
-	if faulted {
+	if faulted && f.Short == 0 {
 		k.leave(Call{Name: "pread", Args: []any{fd, len(p), off}, Ret: []any{-1}, Err: f.Err})
 		return -1, f.Err
 	}
@@ -166,7 +166,11 @@ func Pread(fd int, p []byte, off int64) (int, error) {
 	}
 	n := 0
 	if off < int64(len(in.Data)) {
-		n = copy(p, in.Data[off:])
+		lim := len(p)
+		if faulted && f.Short > 0 && f.Short < lim {
+			lim = f.Short // a short read: fewer bytes than asked for and available
+		}
+		n = copy(p[:lim], in.Data[off:])
 	}
 	k.leave(Call{Name: "pread", Args: []any{fd, len(p), off}, Ret: []any{n, string(p[:n])}})
 	return n, nil
